@@ -95,37 +95,32 @@ theorem tested_refines (env : Env) (dt ps : String) (ctch : Option DVal) (tests 
   | some c =>
     exact testLoop_catch env dt ps c tests x _ st rfl he
 
+theorem primBody_refines (env : Env) (m : Mode) (p : Prim) (fl0 : Flags)
+    (path : List String) (v : Val) (d : DVal) (st : St) (he : fl0.exit = false) :
+    (primBody env m p fl0 path v d st).2 = Spec.primBody env m p path v d st := by
+  unfold primBody Spec.primBody
+  obtain ⟨kind, tests, posts, required, dflt, ctch, coerce⟩ := p
+  simp only
+  cases primAbsent m v d
+  · simp only [Bool.false_eq_true, ↓reduceIte]
+    cases m <;> simp only
+    · cases hco : coerce v with
+      | none => cases ctch <;> simp [addIssue, Spec.emit]
+      | some x => exact tested_refines _ _ _ _ _ _ _ _ he
+    · exact tested_refines _ _ _ _ _ _ _ _ he
+  · simp only [↓reduceIte]
+    cases dflt with
+    | some x => exact tested_refines _ _ _ _ _ _ _ _ he
+    | none =>
+      cases required with
+      | none => rfl
+      | some r => cases ctch <;> simp [addIssue, Spec.emit]
+
 theorem prim_refines (env : Env) (f : Facts) (hf : FactsOK f) (m : Mode) (p : Prim) (fl0 : Flags)
     (path : List String) (v : Val) (d : DVal) (st : St) (he : fl0.exit = false) :
     (prim env f m p fl0 path v d st).2 = Spec.prim env m p path v d st := by
   unfold prim Spec.prim
-  rw [runPosts_refines _ _ _ _ _ _ (Or.inl (primClears_ok f hf m))]
-  congr 1
-  obtain ⟨kind, tests, posts, required, dflt, ctch, coerce⟩ := p
-  simp only
-  cases m <;> simp only
-  · by_cases ha : isParseZero v = true
-    · simp only [ha, ↓reduceIte]
-      cases dflt with
-      | some x => exact tested_refines _ _ _ _ _ _ _ _ he
-      | none =>
-        cases required with
-        | none => rfl
-        | some r => cases ctch <;> simp [addIssue, Spec.emit]
-    · simp only [ha, ↓reduceIte, Bool.false_eq_true]
-      cases hco : coerce v with
-      | none => cases ctch <;> simp [addIssue, Spec.emit]
-      | some x => exact tested_refines _ _ _ _ _ _ _ _ he
-  · by_cases ha : isZeroD d = true
-    · simp only [ha, ↓reduceIte]
-      cases dflt with
-      | some x => exact tested_refines _ _ _ _ _ _ _ _ he
-      | none =>
-        cases required with
-        | none => rfl
-        | some r => cases ctch <;> simp [addIssue, Spec.emit]
-    · simp only [ha, ↓reduceIte, Bool.false_eq_true]
-      exact tested_refines _ _ _ _ _ _ _ _ he
+  rw [runPosts_refines _ _ _ _ _ _ (Or.inl (primClears_ok f hf m)), primBody_refines _ _ _ _ _ _ _ _ he]
 
 theorem stestLoop_clean (env : Env) (dt ps : String) (tests : List Test) (x : DVal) (fl : Flags) (st : St)
     (hc : fl.canCatch = false) (he : fl.exit = false) :
